@@ -13,6 +13,7 @@ On(e) ==
   IF e.e # "case" THEN << <<"MACHINERY_unknown_event", FALSE>> >>
   ELSE << <<"cpu_budget_exceeded", e.outcome # "CPU_BUDGET" /\ e.cpu_ms <= CpuBudgetMs(e.len)>>,
           <<"memory_budget_exceeded", e.outcome # "MEM_BUDGET" /\ e.rss_growth_kb <= MemBudgetKb(e.len)>>,
+          <<"endless_requests", e.outcome # "REQUEST_FLOOD">>,
           <<"processing_did_not_complete", e.outcome \in {"result", "exception", "dropped"}>>,
           <<"client_unusable_after", e.followup_ok>> >>
 Init == tid \in 1..Len(Traces) /\ l = 1 /\ verdict = <<"ok", 0>>
